@@ -38,8 +38,8 @@ func Main(prop string) {
 	case "corpus":
 		out, tier, repo, opa, cdir, tmp := os.Args[2], os.Args[3], os.Args[4], os.Args[5], os.Args[6], os.Args[7]
 		r := hutil.NewRng(hutil.SeedFromEnv())
-		plan := Plan{Tier: tier, Repo: repo, OPADir: opa, CorpusDir: cdir, BatchSize: 48, Stress: 1}
-		job := &Job{Timeout: 240, Detail: 3, Locate: locate}
+		plan := Plan{Tier: tier, Repo: repo, OPADir: opa, CorpusDir: cdir, BatchSize: 96, Stress: 1}
+		job := &Job{Timeout: 240, Detail: 3, Locate: locate, Par: 4}
 		switch {
 		case tier == "quick" && !locate:
 			plan.OPASample, plan.GenN, plan.MutN, plan.SingleFile = 1000, 400, 400, 24
@@ -70,7 +70,7 @@ func Main(prop string) {
 		if err := json.Unmarshal(bs, &rf); err != nil {
 			panic(err)
 		}
-		job := &Job{Timeout: 240, Detail: 50, Locate: locate, Batches: [][]Module{rf.Modules}}
+		job := &Job{Timeout: 240, Detail: 50, Locate: locate, Par: 1, Batches: [][]Module{rf.Modules}}
 		if locate {
 			job.Shifts = []int{1, 3, 10, 100}
 		}
